@@ -195,3 +195,18 @@ theorem C03_uni_collect_bounded (m : Option Rat) (pending : Rat) (hm : negGiven 
   exact ⟨key.1, key.2, by rw [NumCtx.exact_sub]; linarith [key.2]⟩
 
 end Demeter
+
+/-! ### non-vacuity -/
+namespace Demeter
+open Demeter.Uni
+
+/-- a debit that is accepted exactly, one that snaps to zero (within 1e-5 of the balance), one that is refused -/
+example : assetSub NumCtx.exact 10 4 false = some 6 ∧ assetSub NumCtx.exact 10 (10 - 1 / 1000000) false = some 0 ∧
+    assetSub NumCtx.exact 10 11 false = none := by decide +kernel
+
+/-- caps and liquidity requests beyond what is held are clamped (hypotheses of the two `…_bounded` theorems hold) -/
+example : capAt (some 50) 7 = 7 ∧ negGiven (some 50) = false ∧
+    removeDelta (some 1000) { (default : Pos) with liq := 5 } = (5, false) ∧ negLiq (some 1000) = false := by
+  decide +kernel
+
+end Demeter
